@@ -644,6 +644,12 @@ pub fn run(r: &mut Runner, level: &str, profile: &str, seed: u64, count: u64, ti
     if level == "conn" && matches!(profile, "C09" | "C13" | "C18" | "C12") {
         stalled_oversized(r);
     }
+    if level == "conn" && matches!(profile, "C12" | "C18") {
+        reset_after_quit(r);
+    }
+    if level == "conn" && profile == "C18" {
+        quiet_keepalive(r);
+    }
     r.finish();
     st
 }
@@ -956,6 +962,136 @@ pub fn stalled_oversized(r: &mut Runner) {
         r.violations.push((prog, vec!["C09", "C13", "C18", "C12"], start, format!(
             "bytes of an oversized request's body were executed as requests after its sender had stalled past the idle timeout: {} (responses received: {})",
             if injected { "the key 'injected' is stored" } else { "a request inside the body was answered" }, hex(&got[..got.len().min(96)]))));
+    }
+}
+
+/// C12 / C18: "nothing received after quit/quitq is executed" also when the client is already gone: a pipeline
+/// [quiet stores…, quit or quitq, set after-quit] is written at once and the connection is reset (SO_LINGER 0) before the
+/// server gets to the quit — the bytes are still in the server's receive queue, shutting the socket down fails. The store
+/// must never hold the key written after the quit, and the server must still serve.
+pub fn reset_after_quit(r: &mut Runner) {
+    use std::io::Write;
+    let clock = std::sync::Arc::new(crate::sut::Clock(std::sync::atomic::AtomicU64::new(0)));
+    let mem = std::sync::Arc::new(memcrs::memory_store::store::MemoryStore::new(clock));
+    let store: std::sync::Arc<dyn memcrs::cache::cache::Cache + Send + Sync> = mem.clone();
+    let srv = crate::net::start_server(store, 64 << 10, 16, 5);
+    r.exec("note reset-after-quit: [n quiet sets, quit|quitq, set after<i>] in one write, then the client resets the connection; n = 0, 20, 60, 200, each with quit and quitq, twice");
+    let start = r.ops.len() - 1;
+    let mut executed: Vec<String> = vec![];
+    let mut round = 0u32;
+    for _rep in 0..2 {
+        for n in [0usize, 20, 60, 200] {
+            for quit in [op::QUITQ, op::QUIT] {
+                round += 1;
+                let marker = format!("after{}", round).into_bytes();
+                let mut b: Vec<u8> = vec![];
+                for i in 0..n {
+                    b.extend(wire::set_like(op::SETQ, format!("q{}_{}", round, i).as_bytes(), &vec![b'q'; 900], 0, 0, 0, i as u32).bytes());
+                }
+                b.extend(wire::bare(quit, 0x71).bytes());
+                b.extend(wire::set_like(op::SET, &marker, b"x", 0, 0, 0, 0x72).bytes());
+                if let Ok(c) = std::net::TcpStream::connect(("127.0.0.1", srv.port)) {
+                    c.set_nodelay(true).ok();
+                    let mut c = c;
+                    let _ = c.write_all(&b);
+                    let _ = socket2::SockRef::from(&c).set_linger(Some(std::time::Duration::from_secs(0)));
+                    drop(c);
+                }
+                // until the store has been quiet for 60 ms (at most 1.5 s)
+                let t0 = std::time::Instant::now();
+                let mut last = usize::MAX;
+                let mut quiet_since = std::time::Instant::now();
+                while t0.elapsed() < std::time::Duration::from_millis(1500) {
+                    let len = crate::sut::Sut::records_of(&mem).len();
+                    if len != last {
+                        last = len;
+                        quiet_since = std::time::Instant::now();
+                    } else if quiet_since.elapsed() > std::time::Duration::from_millis(60) {
+                        break;
+                    }
+                    std::thread::sleep(std::time::Duration::from_millis(5));
+                }
+                if crate::sut::Sut::records_of(&mem).iter().any(|(k, _)| k.as_slice() == marker.as_slice()) {
+                    executed.push(format!("{} quiet sets + {} + set {}", n, if quit == op::QUIT { "quit" } else { "quitq" }, String::from_utf8_lossy(&marker)));
+                }
+            }
+        }
+    }
+    let mut serving = false;
+    if let Ok(mut b) = std::net::TcpStream::connect(("127.0.0.1", srv.port)) {
+        use std::io::Read;
+        b.set_read_timeout(Some(std::time::Duration::from_millis(2000))).ok();
+        let _ = b.write_all(&wire::bare(op::NOOP, 0xbeef).bytes());
+        let mut buf = [0u8; 64];
+        serving = matches!(b.read(&mut buf), Ok(n) if n >= 24);
+    }
+    let prog = r.prog_start.len().saturating_sub(1);
+    if !executed.is_empty() {
+        r.violations.push((prog, vec!["C12", "C18"], start, format!(
+            "a request pipelined behind quit/quitq was executed although the connection had been reset by the client: {} (of {} rounds)", executed.join("; "), round)));
+    }
+    if !serving {
+        r.violations.push((prog, vec!["C18", "C17"], start, "after clients had reset their connections behind a quit, a fresh connection's noop got no answer within 2 s".to_string()));
+    }
+}
+
+/// C18 / C19: a client that keeps sending — but only commands that produce no response — is not idle: every request it
+/// has completely sent is executed. Idle timeout 2 s; one answered set, then a quiet set every 400 ms for 3.6 s, then a
+/// noop. (If the sender itself was stalled for more than 1.2 s between two sends, the run says nothing.)
+pub fn quiet_keepalive(r: &mut Runner) {
+    use std::io::{Read, Write};
+    let clock = std::sync::Arc::new(crate::sut::Clock(std::sync::atomic::AtomicU64::new(0)));
+    let mem = std::sync::Arc::new(memcrs::memory_store::store::MemoryStore::new(clock));
+    let store: std::sync::Arc<dyn memcrs::cache::cache::Cache + Send + Sync> = mem.clone();
+    let srv = crate::net::start_server(store, 64 << 10, 8, 2);
+    r.exec("note quiet-keepalive: idle timeout 2 s; set k0 (answered), then setq k1..k9 400 ms apart, then noop");
+    let start = r.ops.len() - 1;
+    let Ok(mut c) = std::net::TcpStream::connect(("127.0.0.1", srv.port)) else { return };
+    c.set_nodelay(true).ok();
+    c.set_read_timeout(Some(std::time::Duration::from_millis(1500))).ok();
+    let mut buf = [0u8; 256];
+    let _ = c.write_all(&wire::set_like(op::SET, b"k0", b"v", 0, 0, 0, 1).bytes());
+    let _ = c.read(&mut buf);
+    let mut max_gap = std::time::Duration::ZERO;
+    let mut last = std::time::Instant::now();
+    let mut send_failed = None;
+    for i in 1..=9u32 {
+        std::thread::sleep(std::time::Duration::from_millis(400));
+        let now = std::time::Instant::now();
+        max_gap = max_gap.max(now - last);
+        last = now;
+        // alternate quiet stores that succeed and quiet gets that miss
+        let f = if i % 3 == 0 { wire::key_only(op::GETQ, b"absent", 0, 100 + i).bytes() } else { wire::set_like(op::SETQ, format!("k{}", i).as_bytes(), b"v", 0, 0, 0, 100 + i).bytes() };
+        if c.write_all(&f).is_err() && send_failed.is_none() {
+            send_failed = Some(i);
+        }
+    }
+    let _ = c.write_all(&wire::bare(op::NOOP, 0x99).bytes());
+    let mut got = vec![];
+    loop {
+        match c.read(&mut buf) {
+            Ok(0) | Err(_) => break,
+            Ok(n) => {
+                got.extend_from_slice(&buf[..n]);
+                if got.len() >= 24 {
+                    break;
+                }
+            }
+        }
+    }
+    if max_gap > std::time::Duration::from_millis(1200) {
+        r.exec(&format!("note quiet-keepalive inconclusive: the sender was stalled for {} ms", max_gap.as_millis()));
+        return;
+    }
+    let recs = crate::sut::Sut::records_of(&mem);
+    let missing: Vec<String> = (1..=9u32).filter(|i| i % 3 != 0).map(|i| format!("k{}", i)).filter(|k| !recs.iter().any(|(kk, _)| kk.as_slice() == k.as_bytes())).collect();
+    let noop_ok = wire::split_resps(&got).ok().map_or(false, |fr| fr.iter().any(|b| wire::parse_resp(b).map_or(false, |x| x.opaque == 0x99)));
+    if !missing.is_empty() || !noop_ok {
+        let prog = r.prog_start.len().saturating_sub(1);
+        r.violations.push((prog, vec!["C18", "C19"], start, format!(
+            "a client that sent a quiet command every 400 ms (idle timeout 2 s, largest gap between its sends {} ms) was cut off: quiet stores completely sent but not executed: [{}]; final noop {}{}",
+            max_gap.as_millis(), missing.join(" "), if noop_ok { "answered" } else { "not answered" },
+            send_failed.map_or(String::new(), |i| format!("; sending request {} failed", i)))));
     }
 }
 
